@@ -711,7 +711,13 @@ class strategy_smoother_fixedinterval(Smoother):
     def interpolate_fwd_at_t1(self, posterior_t1):
         marginals = posterior_t1.marginal
 
+        # Nothing lives beyond t1, so the state to continue from
+        # gets a unit backward model (just like in fixed-point smoothing).
+        cond_identity = posterior_t1.marginal.identity_conditional()
+        resume_from = MarkovSequence(
+            posterior_t1.marginal, cond_identity, reverse=posterior_t1.reverse
+        )
         interp_res = utilities.InterpResult(
-            step_from=posterior_t1, interp_from=posterior_t1
+            step_from=resume_from, interp_from=resume_from
         )
         return (marginals, posterior_t1), interp_res
